@@ -257,3 +257,33 @@ func nil2global() *protoregistry.Types { return protoregistry.GlobalTypes }
 
 func float32frombits(b uint32) float32 { return math.Float32frombits(b) }
 func float64frombits(b uint64) float64 { return math.Float64frombits(b) }
+
+// schemaDynTypes returns dynamicpb message types of n PRNG-generated schemas
+// (every non-map-entry message, nested ones included): message shapes that no
+// linked type has.
+func schemaDynTypes(c *core.Ctx, tag uint64, n int) []protoreflect.MessageType {
+	var out []protoreflect.MessageType
+	for i := 0; i < n; i++ {
+		r := c.Rng(tag<<32 | uint64(i))
+		o := gen.SchemaOpts{Prefix: fmt.Sprintf("verifdyn%d.s%d", tag, i), Features: i%2 == 0, NumFiles: 1 + i%2, NoServices: true}
+		_, _, fds, _, err := gen.GenValidSchema(r, o)
+		if err != nil {
+			continue
+		}
+		var walk func(ms protoreflect.MessageDescriptors)
+		walk = func(ms protoreflect.MessageDescriptors) {
+			for j := 0; j < ms.Len(); j++ {
+				md := ms.Get(j)
+				if md.IsMapEntry() {
+					continue
+				}
+				out = append(out, dynamicpb.NewMessageType(md))
+				walk(md.Messages())
+			}
+		}
+		for _, fd := range fds {
+			walk(fd.Messages())
+		}
+	}
+	return out
+}
